@@ -82,6 +82,7 @@ type cbRec struct {
 	Steps   int
 	Hold    bool
 	WaitCtx bool // the handler returns only when its context has ended (the client stopped)
+	Outcome int  // 0 value, 1 nil, 2 plain error, 3 *Error with data, 4 *Error with a reserved code, 5 a value that cannot be encoded, 6 panic
 	Enter   int
 	Exit    int
 	Holding bool
@@ -262,6 +263,20 @@ func (w *cliWorld) onCallback(ctx context.Context, req *jrpc2.Request) (any, err
 	}
 	cb.Exit = w.seq()
 	w.r.Ev("c.cb.exit", cb.Tag, 0, 0, cb.CtxErr)
+	switch cb.Outcome {
+	case 1:
+		return nil, nil
+	case 2:
+		return nil, errors.New("callback refused: " + cb.Tag)
+	case 3:
+		return nil, jrpc2.Errorf(4711, "refused %s", cb.Tag).WithData(map[string]string{"cb": cb.Tag})
+	case 4:
+		return nil, &jrpc2.Error{Code: jrpc2.InvalidParams, Message: "bad params " + cb.Tag}
+	case 5:
+		return map[string]any{"cb": cb.Tag, "f": func() {}}, nil // cannot be encoded
+	case 6:
+		panic("callback handler " + cb.Tag + " gives up")
+	}
 	return map[string]string{"cb": cb.Tag}, nil
 }
 
@@ -504,6 +519,7 @@ func (w *cliWorld) peerSaw(raw string) {
 			tag := fmt.Sprintf("cb%d", w.nrep)
 			cb := &cbRec{Tag: tag, Steps: g.Int("cbsteps", 3), Hold: g.Chance("cbhold", 0.3), Enter: -1, Exit: -1}
 			cb.WaitCtx = w.cfg.Faults && g.Chance("cbwaitctx", 0.2)
+			cb.Outcome = g.Weighted("cboutcome", []int{6, 1, 1, 1, 1, 1, 1})
 			w.cbs[tag] = cb
 			w.cbOrder = append(w.cbOrder, cb)
 			w.outbox = append(w.outbox, fmt.Sprintf(`{"jsonrpc":"2.0","id":"%s","method":"srvcall","params":{"t":"%s"}}`, tag, tag))
